@@ -598,7 +598,18 @@ type c05NullWriter struct{ n int }
 func (w *c05NullWriter) WritePacket(p *packet.Packet) (int, error) { w.n++; return 188, nil }
 
 func c05Run1(c CaseC05) *hx.Failure {
-	in := clone(c.Input)
+	in, spareIntact := withSpare(c.Input)
+	defer func() { _ = spareIntact }()
+	if f := c05Run2(c, in); f != nil {
+		return f
+	}
+	if !spareIntact() {
+		return hx.Failf("input-modified:spare-capacity:"+c.Target, "%s wrote into the spare capacity behind the caller's slice (append to a caller-owned slice)", c.Target)
+	}
+	return nil
+}
+
+func c05Run2(c CaseC05, in []byte) *hx.Failure {
 	keep := clone(in)
 	var pk packet.Packet
 	copy(pk[:], in)
